@@ -161,7 +161,7 @@ def compute(tier, seed):
         raise ToolError("cannot find the proc-macro artifact of enum-tools")
     env = dict(os.environ, RUSTC_BOOTSTRAP="1")
     # per-process state other than the hash seeds: the order in which the declarations are expanded (each run gets its own
-    # permutation of the case modules) and the environment (odd runs see the variables cargo sets for build scripts, another
+    # permutation of the case modules) and the environment (odd runs see the variables cargo sets for crates and build scripts -- in two variants --, another
     # working directory name, TMPDIR, ...)
     scrambled = {"CARGO_CFG_TARGET_POINTER_WIDTH": "64", "CARGO_CFG_TARGET_ARCH": "x86_64", "CARGO_CFG_TARGET_OS": "linux",
                  "CARGO_CFG_TARGET_ENDIAN": "little", "CARGO_CFG_UNIX": "", "PROFILE": "release", "OPT_LEVEL": "3", "DEBUG": "false",
@@ -169,6 +169,20 @@ def compute(tier, seed):
                  "CARGO_PKG_NAME": "other", "CARGO_PKG_VERSION": "9.9.9", "CARGO_CRATE_NAME": "other", "CARGO_MANIFEST_DIR": "/nonexistent",
                  "RUSTFLAGS": "-Copt-level=3", "CARGO_ENCODED_RUSTFLAGS": "-Copt-level=3", "TMPDIR": "/tmp", "LANG": "tr_TR.UTF-8",
                  "LC_ALL": "C", "TZ": "Pacific/Kiritimati", "SOURCE_DATE_EPOCH": "1", "RUST_LOG": "trace", "CARGO_FEATURE_STD": "1"}
+    # every variable cargo documents for crates / build scripts, in two variants (an old and a new declared rust-version, ...)
+    for k, v in {"CARGO_PKG_RUST_VERSION": "1.56", "CARGO_PKG_AUTHORS": "a:b", "CARGO_PKG_DESCRIPTION": "d", "CARGO_PKG_HOMEPAGE": "h",
+                 "CARGO_PKG_REPOSITORY": "r", "CARGO_PKG_LICENSE": "MIT", "CARGO_PKG_LICENSE_FILE": "", "CARGO_PKG_README": "README.md",
+                 "CARGO_PKG_VERSION_MAJOR": "9", "CARGO_PKG_VERSION_MINOR": "9", "CARGO_PKG_VERSION_PATCH": "9", "CARGO_PKG_VERSION_PRE": "rc.1",
+                 "CARGO": "/nonexistent/cargo", "CARGO_BIN_NAME": "b", "CARGO_PRIMARY_PACKAGE": "1", "CARGO_TARGET_TMPDIR": "/tmp",
+                 "RUSTC": "rustc", "RUSTDOC": "rustdoc", "RUSTC_WRAPPER": "", "RUSTC_LINKER": "cc",
+                 "CARGO_MAKEFLAGS": "-j3", "CARGO_INCREMENTAL": "1", "CI": "true", "TERM": "dumb", "USER": "nobody",
+                 "RUST_BACKTRACE": "full", "RUST_MIN_STACK": "16777216", "CARGO_CFG_DEBUG_ASSERTIONS": "", "CARGO_CFG_PANIC": "unwind",
+                 "CARGO_CFG_TARGET_FEATURE": "sse2", "CARGO_CFG_TARGET_HAS_ATOMIC": "8,16,32,64,ptr", "CARGO_CFG_TARGET_FAMILY": "unix"}.items():
+        scrambled.setdefault(k, v)
+    scrambled2 = dict(scrambled, CARGO_PKG_RUST_VERSION="1.99.0", PROFILE="debug", OPT_LEVEL="0", DEBUG="true", CARGO_PKG_VERSION="0.0.1-alpha",
+                      CARGO_PKG_VERSION_PRE="alpha", CARGO_CFG_TARGET_POINTER_WIDTH="32", CARGO_CFG_TARGET_ARCH="wasm32", CARGO_CFG_TARGET_OS="unknown",
+                      TARGET="wasm32-unknown-unknown", CARGO_CFG_TARGET_ENDIAN="big", LANG="ja_JP.UTF-8", TZ="UTC", SOURCE_DATE_EPOCH="4000000000",
+                      CARGO_INCREMENTAL="0", CI="", NUM_JOBS="1")
     blocks = {}
     for cid, a, b in spans:
         blocks[cid] = lines[a:b]
@@ -186,8 +200,10 @@ def compute(tier, seed):
             text += blocks[cid]
         open(os.path.join(root, src_k), "w").write("\n".join(text) + "\n")
         e = dict(env)
-        if k % 2 == 1:
+        if k % 4 == 1:
             e.update(scrambled)
+        elif k % 4 == 3:
+            e.update(scrambled2)
         p = subprocess.run(["rustc", "--edition=2021", "--crate-type=lib", "--crate-name", "expcorpus", "-Zunpretty=expanded",
                             "--extern", f"enum_tools={so}", "--cap-lints", "allow", src_k],
                            cwd=root, env=e, stdout=subprocess.PIPE, stderr=subprocess.PIPE, text=True)
